@@ -768,6 +768,19 @@ DICT_G = {"k": ["x", "y"], "n": {"m": "v"}}
 FILT_G = [v for v in ["a", "b", "c", "d", "e"] if v != "e" and v != "d"]
 SLICE_G = ["p", "q", "r", "s"][:2]
 NUMS_G = [n for n in [1, 2, 3, 4, 5, 6, 7] if n < 4]
+CONFIG.setdefault("TOOLCHAIN", {"CC": "gcc", "OPT": "-O1"})
+
+def glist():
+    return LIST_G
+
+def gnest():
+    return NEST_G[0]
+
+def gdict():
+    return DICT_G
+
+def gdictk():
+    return DICT_G["k"]
 
 def lit():
     return ["c", "a", "b"]
@@ -783,7 +796,8 @@ def mixed(extra = None):
 
 def observe():
     return "|".join([str(lit()), str(nested()), str(litd()), str(mixed()), str(LIST_G), str(NEST_G), str(DICT_G),
-                     str(FILT_G), str(SLICE_G), str(NUMS_G), str(FILT_G + ["obs"]), str(SLICE_G + ["obs"]), str(NUMS_G + [0])])
+                     str(FILT_G), str(SLICE_G), str(NUMS_G), str(FILT_G + ["obs"]), str(SLICE_G + ["obs"]), str(NUMS_G + [0]),
+                     str(glist()), str(gnest()), str(gdict()), str(CONFIG.TOOLCHAIN)])
 '''
 
 # mutation / re-ordering idioms; each is a few statements using a fresh variable prefix
@@ -824,6 +838,17 @@ C17_IDIOMS = [
     ('x = sorted(FILT_G + ["MUT_%s"])',),
     ('x = [v for v in FILT_G]', 'x[0] = "MUT_%s"'),
     ('x = FILT_G[:2]', 'x[0] = "MUT_%s"'),
+    # module-level values handed out by the build_defs' own functions
+    ('x = glist()', 'x[0] = "MUT_%s"'),
+    ('x = gnest()', 'x[1] = "MUT_%s"'),
+    ('x = gdict()', 'x["new"] = "MUT_%s"'),
+    ('x = gdictk()', 'x[0] = "MUT_%s"'),
+    ('x = sorted(glist())',),
+    ('x = glist() + ["own"]', 'x[0] = "MUT_%s"'),
+    # per-package configuration overrides of a dict-valued entry defined by the subinclude
+    ('package(toolchain = {"opt": "MUT_%s"})',),
+    ('package(toolchain = {"cc": "MUT_%s", "extra": "x"})',),
+    ('x = CONFIG.TOOLCHAIN', 'x["OPT"] = "MUT_%s"'),
 ]
 
 
